@@ -35,6 +35,10 @@ func H_C05_match() {
 	opt := vxrt.Choice("update-option", 3)
 	api := vxrt.Choice("api", 5)
 	state := vxrt.Choice("entry-state", 3) // 0 missing, 1 equal, 2 different
+	if state == 0 && vxrt.Bool("snapshot-directory-does-not-exist-yet") {
+		// the first snapshot of a package: creating the (nested) directory is creating something
+		dir += "/new/nested"
+	}
 	c := vxCfgWithOpt(dir, opt)
 	stored := `"s"`
 	recv := stored
@@ -165,4 +169,26 @@ func H_C05_run() {
 	Clean(nil)
 	gone := vxReadFile(dir+"/old_test.snap") == "<missing>"
 	vxrt.Assert(gone == cleanMode, "C05:clean-deletes-only-in-clean-mode")
+}
+
+// H_C05_emptydir: a call that may not create its snapshot leaves an existing, empty snapshot
+// directory behind; Clean afterwards has nothing to report there and, whatever the mode, deletes
+// nothing - in particular not the directory.
+func H_C05_emptydir() {
+	vxrt.CISymbolic()
+	vxrt.EnvFixed("NO_COLOR", "1")
+	vxrt.EnvSymbolic("UPDATE_SNAPS", 5)
+	vxrt.Flag("test.count", "1")
+	vxrt.Flag("test.run", "")
+	dir := vxrt.Dir() + "/__snapshots__"
+	vxOs_MkdirAll(dir)
+	c := WithConfig(Dir(dir), Filename("f_test"), Update(false))
+	t := vxNewT("TestA")
+	c.MatchSnapshot(t, "a")
+	t.end()
+	vxrt.Assert(len(t.errors) == 1, "C05:missing-fails-when-creation-forbidden")
+	stamp := vxrt.FSStamp()
+	opts := CleanOpts{Sort: vxrt.Bool("sort")}
+	Clean(nil, opts)
+	vxrt.Assert(vxrt.FSStamp() == stamp, "C05:clean-leaves-empty-directory-alone")
 }
